@@ -427,3 +427,165 @@ theorem batchDevs_id (bs : List Batch) (h : (batchDevs bs).1 = []) : (batchDevs 
   simp only [batchDevs, devIntApply_id bs hi, devTaglessApply_id bs ht, devEmptyApply_id bs he]
 
 end Kap.C18
+namespace Kap.C18
+open List
+
+theorem splitNL_length (d : Bytes) : (splitNL d).1.length = d.count NL := by
+  induction d with
+  | nil => simp [splitNL]
+  | cons c rest ih =>
+    by_cases hc : c = NL
+    · subst hc; simp [splitNL, ih]
+    · have : (c == NL) = false := by simp [hc]
+      rw [List.count_cons, this]
+      simp only [splitNL, hc, if_false]
+      cases hs : splitNL rest with
+      | mk ls t =>
+        rw [hs] at ih
+        cases ls with
+        | nil => simpa using ih
+        | cons l ls' => simpa using ih
+
+def Frame.nlCount (f : Frame) : Nat := f.db.count NL + f.rp.count NL + f.line.count NL
+
+theorem count_writeFrames (fs : List Frame) :
+    (writeFrames fs).count NL = 3 * fs.length + (fs.map Frame.nlCount).sum := by
+  induction fs with
+  | nil => simp [writeFrames]
+  | cons f fs ih =>
+    have e : writeFrames (f :: fs) = f.db ++ NL :: (f.rp ++ NL :: (f.line ++ NL :: writeFrames fs)) := by
+      simp [writeFrames, Frame.bytes]
+    rw [e]
+    simp only [List.count_append, List.count_cons, beq_self_eq_true, if_true, ih, List.length_cons, List.map_cons,
+      List.sum_cons, Frame.nlCount]
+    omega
+
+theorem frames_inv (ls : List Bytes) (e : Bool) (fs : List Frame) (h : frames ls e = (fs, true)) :
+    ls = fs.flatMap Frame.comps ∧ e = false := by
+  induction fs generalizing ls with
+  | nil =>
+    rcases ls with _ | ⟨a, _ | ⟨b, _ | ⟨c, rest⟩⟩⟩
+    · simp [frames] at h; simp [h]
+    · simp [frames] at h
+    · simp [frames] at h
+    · simp [frames] at h
+  | cons f fs' ih =>
+    rcases ls with _ | ⟨a, _ | ⟨b, _ | ⟨c, rest⟩⟩⟩
+    · simp [frames] at h
+    · simp [frames] at h
+    · simp [frames] at h
+    · simp only [frames, Prod.mk.injEq, List.cons.injEq] at h
+      obtain ⟨⟨h1, h2⟩, h3⟩ := h
+      have hr : frames rest e = (fs', true) := by
+        rw [← h2, ← h3]
+      obtain ⟨i1, i2⟩ := ih rest hr
+      subst h1
+      simp [Frame.comps, i1, i2]
+
+theorem scanLines_inv (max : Nat) (L ls : List Bytes) (h : scanLines max L = (ls, false)) :
+    ls = L.map dropCR ∧ ∀ l ∈ L, l.length < max := by
+  induction L generalizing ls with
+  | nil => simp [scanLines] at h; simp [h]
+  | cons l rest ih =>
+    simp only [scanLines] at h
+    by_cases hl : l.length ≥ max
+    · simp [hl] at h
+    · simp only [hl, if_false] at h
+      cases hr : scanLines max rest with
+      | mk ls' e' =>
+        rw [hr] at h
+        simp only [Prod.mk.injEq] at h
+        obtain ⟨h1, h2⟩ := h
+        subst h2
+        obtain ⟨i1, i2⟩ := ih ls' hr
+        subst h1
+        refine ⟨by simp [i1], ?_⟩
+        intro x hx
+        simp at hx
+        rcases hx with rfl | hx
+        · omega
+        · exact i2 x hx
+
+
+theorem rawLines_length_ge (d : Bytes) : (splitNL d).1.length ≤ (rawLines d).length := by
+  unfold rawLines
+  cases h : (splitNL d).2.isEmpty <;> simp [h]
+
+theorem sum_zero_all (l : List Nat) (h : l.sum = 0) : ∀ x ∈ l, x = 0 := by
+  induction l with
+  | nil => simp
+  | cons a r ih =>
+    simp only [List.sum_cons] at h
+    intro x hx
+    simp at hx
+    rcases hx with rfl | hx
+    · omega
+    · exact ih (by omega) x hx
+
+theorem map_self_inv {α} (f : α → α) (l : List α) (h : l.map f = l) : ∀ x ∈ l, f x = x := by
+  induction l with
+  | nil => simp
+  | cons a r ih =>
+    simp only [List.map_cons, List.cons.injEq] at h
+    intro x hx
+    simp at hx
+    rcases hx with rfl | hx
+    · exact h.1
+    · exact ih h.2 x hx
+
+theorem dropCR_fix (c : Bytes) (h : dropCR c = c) : c.getLast? ≠ some CR := by
+  intro hl
+  unfold dropCR at h
+  rw [hl] at h
+  simp only [if_true] at h
+  have hne : c ≠ [] := by intro e; simp [e] at hl
+  have := congrArg List.length h
+  rw [List.length_dropLast] at this
+  have : c.length > 0 := List.length_pos_iff.mpr hne
+  omega
+
+theorem comps_length (fs : List Frame) : (fs.flatMap Frame.comps).length = 3 * fs.length := by
+  induction fs with
+  | nil => rfl
+  | cons f r ih => rw [List.flatMap_cons, List.length_append, ih]; simp [Frame.comps]; omega
+
+/-- **Framing round trip (⇒)**: if the recording reads back as the frames that were written, every component was clean. -/
+theorem readFrames_writeFrames_inv (fs : List Frame) (h : readFrames maxTok (writeFrames fs) = (fs, true)) :
+    ∀ f ∈ fs, f.clean := by
+  unfold readFrames at h
+  cases hs : scanLines maxTok (rawLines (writeFrames fs)) with
+  | mk ls e =>
+    rw [hs] at h
+    simp only at h
+    obtain ⟨hls, he⟩ := frames_inv ls e fs h
+    subst he
+    obtain ⟨hmap, hlen⟩ := scanLines_inv maxTok _ ls hs
+    -- count the lines
+    have hL : (rawLines (writeFrames fs)).length = 3 * fs.length := by
+      have : ls.length = 3 * fs.length := by
+        rw [hls]; exact comps_length fs
+      rw [← this, hmap, List.length_map]
+    have hcnt := count_writeFrames fs
+    have hge := rawLines_length_ge (writeFrames fs)
+    rw [splitNL_length, hcnt, hL] at hge
+    have hz : (fs.map Frame.nlCount).sum = 0 := by omega
+    have hnl : ∀ f ∈ fs, NL ∉ f.db ∧ NL ∉ f.rp ∧ NL ∉ f.line := by
+      intro f hf
+      have := sum_zero_all _ hz (f.nlCount) (List.mem_map.mpr ⟨f, hf, rfl⟩)
+      unfold Frame.nlCount at this
+      refine ⟨?_, ?_, ?_⟩ <;> (apply List.count_eq_zero.mp; omega)
+    -- now the raw lines are exactly the components
+    have hsplit := splitNL_writeFrames fs hnl
+    have hraw : rawLines (writeFrames fs) = fs.flatMap Frame.comps := by
+      unfold rawLines; rw [hsplit]; simp
+    rw [hraw] at hmap hlen
+    rw [hls] at hmap
+    have hfix := map_self_inv dropCR _ hmap.symm
+    intro f hf
+    have hm : ∀ c ∈ f.comps, c ∈ fs.flatMap Frame.comps := fun c hc => List.mem_flatMap.mpr ⟨f, hf, hc⟩
+    obtain ⟨n1, n2, n3⟩ := hnl f hf
+    refine ⟨⟨n1, dropCR_fix _ (hfix _ (hm _ (by simp [Frame.comps]))), hlen _ (hm _ (by simp [Frame.comps]))⟩,
+            ⟨n2, dropCR_fix _ (hfix _ (hm _ (by simp [Frame.comps]))), hlen _ (hm _ (by simp [Frame.comps]))⟩,
+            ⟨n3, dropCR_fix _ (hfix _ (hm _ (by simp [Frame.comps]))), hlen _ (hm _ (by simp [Frame.comps]))⟩⟩
+
+end Kap.C18
